@@ -168,7 +168,7 @@ def _run(ch, tier):
     cond_truth = {j: False for j in range(sp.nconds) if fs.choice(40) == 1}
     # the very same source text used once as a statement (entry/exit code) and once as a condition
     # (a state precondition): evaluators cache compiled code by text, separately per mode
-    pres = [cond_code(j, 'pre', False, True) for st_ in sp.states.values() for j in st_.pre]
+    pres = [cond_code(j, 'pre', False, True, st_.name) for st_ in sp.states.values() for j in st_.pre]
     echoes = []
     if pres:
         for name in sp.states:
